@@ -492,7 +492,7 @@ pub fn run(p: &Params) -> Report {
     if p.only_case.is_none() {
         rep.require("(permutation, pool) executions", p.n(5000, 150000));
         rep.require("sets accepted", p.n(100, 3000));
-        rep.require("single invalid transactions with a rule-exempt part, executed repeatedly", p.n(30, 1000));
+        rep.require("single invalid transactions with a rule-exempt part, executed repeatedly", p.n(20, 1000));
         rep.require("apply_block replays with rebuilt HashSet", p.n(500, 15000));
         rep.require("sets with a spender of output >= 1 of a member stake transaction", p.n(3, 100));
     }
